@@ -24,6 +24,14 @@ import Fcgi.Props.C12Wf
 import Fcgi.Props.C11E2E
 import Fcgi.Props.C12Fuel
 import Fcgi.Props.C09E2E
+import Fcgi.Props.C03StrInv
+import Fcgi.Props.C03StrSet
+import Fcgi.Props.C04Hostile
+import Fcgi.Props.C09
+import Fcgi.Props.C11
+import Fcgi.Props.C14a
+import Fcgi.Props.C13
+import Fcgi.Props.C12E2E2
 
 namespace Fcgi.NonVacuity
 
@@ -465,5 +473,164 @@ example : (pollConn (connFuel NonVacuity.qRd) NonVacuity.qRd).2 ≠ .panic "mode
   C12Fuel.pollConn_connFuel _ (show WFState Req.State.header from trivial)
 
 end C12Fuel
+
+/-! ## C03 (stream parser, hostile input) and C04Hostile: the "at any time" statements -/
+section C03Str
+open Fcgi Fcgi.Str Fcgi.Spec Fcgi.C03SI
+
+/-- `prefix_sim` on the hostile wire of `Props/C03StrInv.lean`, history 2 cut after 2 operations. -/
+example : ¬ PanicsAny hP (hOps2.take 2) ∧ availOps hP (hOps2.take 2) <+: (refWire hE hWire).content ∧
+    deliveredOps hP (hOps2.take 2) <+: (refWire hE hWire).content ∧
+    C03S.grownAll hP (hOps2.take 2) <+: (refWire hE hWire).out :=
+  prefix_sim hStart (hOps2.take 2) (by decide +kernel) (fun s h => by simp [hOps2] at h) hWire
+    (by decide +kernel)
+
+/-- `drained_outcome` on history 2. -/
+example : outcome hP hOps2 = refOutcome hE (hP.raw ++ fedBytes hOps2) :=
+  (drained_outcome hStart hOps2 hLegal2 hNoSet2 hDrained2).1
+
+/-- `stream_output_prefix` (C04Hostile): the first three operations of history 2 there. -/
+example : C03S.grownAll C04H.sP (C04H.sOps2.take 3) <+: C04H.streamReplies C04H.sE C04H.sWire :=
+  C04H.stream_output_prefix C04H.sStart (C04H.sOps2.take 3) (by decide +kernel)
+    (fun s h => by simp [C04H.sOps2] at h) C04H.sWire (by decide +kernel)
+
+/-- `stream_output_exact_switch` (C04Hostile) on the Filter histories of `Props/C03StrSet.lean`. -/
+example : C03S.grownAll C03SS.fP (C03SS.fA1 ++ [.setStream (some 8)] ++ C03SS.fB1) =
+    (switchRef (C03SS.fE.withStream 8)
+      (refWire C03SS.fE (C03SS.fP.raw ++ fedBytes (C03SS.fA1 ++ [.setStream (some 8)] ++ C03SS.fB1)))).out :=
+  C04H.stream_output_exact_switch C03SS.fStart C03SS.fTwo1 C03SS.fDr1
+
+end C03Str
+
+/-! ## C07 / C11 / C14a: function-level theorems whose hypothesis is the result of a poll -/
+section Polls
+open Fcgi Fcgi.Req Fcgi.Run Fcgi.Async
+
+/-- `close_writes_epilogue` (C07): hypothesis `closePoll … = (…, .reuse rp)` met by the KeepConn close
+of `Props/C07.lean`. -/
+example : ∃ r' m' t' rp X r2,
+    closePoll (C07.exAReq 1) .start (.complete 0) 0 none C07.exTr = (r', .writeEnd [], m', t', .reuse rp) ∧
+    r2.sp.request = (C07.exAReq 1).sp.request ∧
+    t'.wlog = C07.exTr.wlog ++ X ++ r2.sp.output ++ epilogueOf r2 (.complete 0) ∧
+    rp = Req.Parser.fromParser r'.sp.cap r'.sp.raw r'.sp.maxConns := by
+  obtain ⟨r', m', t', rp, h⟩ : ∃ r' m' t' rp, closePoll (C07.exAReq 1) .start (.complete 0) 0 none C07.exTr =
+      (r', .writeEnd [], m', t', .reuse rp) := ⟨_, _, _, _, rfl⟩
+  obtain ⟨X, r2, h1, h2, -, -, h5⟩ := C07.close_writes_epilogue h rfl
+  exact ⟨r', m', t', rp, X, r2, h, h1, h2, h5⟩
+
+/-- `reuse_next` (C07) on the connection `c8Close` above. -/
+example : ∃ rp m t, stepConn c8Close =
+    .next { c8Close with phase := .parseReq rp .start, env := { c8Close.env with mutex := m, tr := t } } :=
+  ⟨_, _, _, C07.reuse_next c8Close _ _ _ _ _ _ _ _ _ rfl rfl⟩
+
+/-- `close_ignores_aborted_writeable` (C11): hypothesis `writeable() = Err(ConnectionAborted)` met by
+the Filter request of `Props/C09.lean` whose `Data` stream is cut by an `AbortRequest`. -/
+example : ∃ r1 m1 t1, closeP1 C09.cxR1 .start none C09.cxT = .ok (r1, m1, t1, .start) := by
+  have h : (C09.cxR1.writeablePoll false none C09.cxT).2.2.2.2 = .err .abortRequest := by decide +kernel
+  have hw : C09.cxR1.writeablePoll (CloseSt.start == CloseSt.inWriteable) none C09.cxT =
+      ((C09.cxR1.writeablePoll false none C09.cxT).1, (C09.cxR1.writeablePoll false none C09.cxT).2.1,
+        (C09.cxR1.writeablePoll false none C09.cxT).2.2.1, (C09.cxR1.writeablePoll false none C09.cxT).2.2.2.1,
+        .err .abortRequest) := by
+    rw [← h]; rfl
+  exact ⟨_, _, _, (C11.close_ignores_aborted_writeable C09.cxR1 .start (.complete 0) 0 none C09.cxT _ _ _ _
+    (Or.inl rfl) hw).1⟩
+
+/-- `no_new_handler_after_stop` (C14a) on the idle connection with the flag raised. -/
+example : ∃ new, (pollConn 5 C14a.exIdle).1.env.tr.events = C14a.exIdle.env.tr.events ++ new ∧
+    hsCount new = 0 ∧ (pollConn 5 C14a.exIdle).1.scripts = C14a.exIdle.scripts :=
+  C14a.no_new_handler_after_stop 5 C14a.exIdle rfl
+
+/-- `in_flight_runs_on'` (C14a): a `close` whose final write is pending, polled with and without the
+flag. -/
+example : ∃ c' : Conn, pollConn 10 { C14a.exInClose with stop := true } = ({ c' with stop := true }, .pending) :=
+  ⟨_, C14a.in_flight_runs_on' 10 C14a.exInClose _ .pending rfl (by decide +kernel) (by decide +kernel)⟩
+
+end Polls
+
+/-! ## C13: the premises inside the conclusions of `no_stranded` / `notified_woken` -/
+section C13
+open Fcgi Fcgi.Runner Fcgi.C13
+
+/-- `no_stranded` on `hist1` of `Props/C13.lean` (a permit is free, two futures hold listeners): both
+premises of its conclusion hold, so the conclusion is not void. -/
+example : ∃ i id, Owner (run (Sys.init 1) hist1).acqs i id ∧
+    (id, LState.notified) ∈ (run (Sys.init 1) hist1).sem.entries ∧ id ∈ (run (Sys.init 1) hist1).sem.wakes :=
+  no_stranded 1 hist1 (by decide) ⟨1, 0, by unfold Owner; decide⟩
+
+/-- `notified_woken` there. -/
+example : 0 ∈ (run (Sys.init 1) hist1).sem.wakes := notified_woken 1 hist1 (id := 0) (by decide)
+
+/-- `woken_waiter_acquires` there: the woken waiter (future 1) polls and gets the permit. -/
+example : (step (run (Sys.init 1) hist1) (.poll 1)).live = (run (Sys.init 1) hist1).live + 1 :=
+  woken_waiter_acquires (id := 0) (by unfold Owner; decide) (by decide)
+
+end C13
+
+/-! ## C12E2E2: the read fails inside the preamble -/
+section C12E
+open Fcgi Fcgi.Req Fcgi.Str Fcgi.Async Fcgi.Run Fcgi.Spec Fcgi.E2E Fcgi.C07E Fcgi.C12E
+
+/-- the wire of `C01.Example` cut after 37 bytes, then the transport reports a read error -/
+def reT : Transport :=
+  { input := (serAll C01.Example.recs ++ []).take 37, endMode := .err, rd := [.n 3, .pending, .n 20],
+    wr := [.n 2, .pending], fl := [] }
+
+/-- `read_err_in_preamble_e2e` (`BenE`, end mode `err`): no handler, the reply owed so far written,
+the task returns. -/
+example : ∃ c', runTask 6 (connS 64 10 reT []) 0 none = (c', "RET") ∧ c'.phase = .finished ∧
+    hsCount c'.env.tr.events = 0 ∧ c'.env.tr.wlog <+: owedPreamble C01.Example.pre 10 C01.Example.recs := by
+  obtain ⟨c', h1, h2, _, h4, _, h6, h7⟩ := read_err_in_preamble_e2e (p := C01.Example.pre)
+    (recs := C01.Example.recs) [] 64 10 37 [] reT 6 C01.Example.recs_wf (C01.Example.pre_pairs_fit 64)
+    (C01.Example.noise_fits 64) (by decide +kernel) rfl ⟨by decide, by decide, rfl⟩ rfl (by decide)
+    (by decide +kernel)
+  exact ⟨c', h1, h2, h4, by rw [h6]; exact h7⟩
+
+end C12E
+
+/-! ## C03Str: error states are sticky; C09E2E: reading scripts never fail -/
+section C03S
+open Fcgi Fcgi.Str Fcgi.Run Fcgi.C03S
+
+theorem ex_err : ex.parse exInput none = ((ex.parse exInput none).1, .err (.unknownVersion 2)) := by
+  have h2 : (ex.parse exInput none).2 = .err (.unknownVersion 2) := by decide +kernel
+  rw [← h2]
+
+/-- `err_enters`: the hypothesis `parse … = (p', .err e)` met by the example of `Props/C03Str.lean`. -/
+theorem ex_errState : ErrState (ex.parse exInput none).1 (.unknownVersion 2) :=
+  err_enters (fromParser_inv _ _ _ _ (by decide) (by decide)) (Or.inl rfl) (by decide +kernel) ex_err
+
+/-- `err_sticky_trace` (`ErrState`, `LegalAll`): whatever the caller does next, the error stays. -/
+example : ErrState (applyOps (ex.parse exInput none).1
+    [.parse [1, 5, 0, 1] none, .compress, .consumeOutput 40, .parse [] (some 3)]) (.unknownVersion 2) :=
+  err_sticky_trace ex_errState (by decide +kernel)
+
+/-- `reads_never_fail` (C09E2E; `RCtx.OK`, `RdSt`, `Ben`) on the reading script of `Props/C09E2E.lean`. -/
+example : (∀ x, (handlerPoll 50 C09E.exR { ops := C09E.exScript } { tr := C09E.exT }).2.2.2 ≠ .done (.error x)) ∧
+    (∀ s, (handlerPoll 50 C09E.exR { ops := C09E.exScript } { tr := C09E.exT }).2.2.2 = .panic s →
+      s = "model: handler fuel exhausted") :=
+  C09E.reads_never_fail C09E.exK_ok 50 C09E.ex_rdst rfl
+
+end C03S
+
+/-! ## C09: `writeable()` on a request that is not yet writeable -/
+section C09
+open Fcgi Fcgi.Async Fcgi.Run
+
+/-- one read delivers `Data(id 1, "AB")` (6 padding bytes) -/
+def wT : Transport :=
+  { input := [1, 8, 0, 1, 0, 2, 0, 0, 65, 66, 0, 0, 0, 0, 0, 0], endMode := .pend, rd := [], wr := [], fl := [] }
+
+/-- `writeable_ready_sets_flag_partial` (`AInv`, `LockInv`, `WriteableInv`, result `Ready`): the Filter
+request of `Props/C09.lean` (`Data` selected, NOT writeable) becomes writeable when `Data` bytes arrive. -/
+example : C09.cxR1.writeable = false ∧ (C09.cxR1.writeablePoll false none wT).1.writeable = true := by
+  have h : (C09.cxR1.writeablePoll false none wT).2.2.2.2 = .ready := by decide +kernel
+  have hw : C09.cxR1.writeablePoll false none wT =
+      ((C09.cxR1.writeablePoll false none wT).1, (C09.cxR1.writeablePoll false none wT).2.1,
+        (C09.cxR1.writeablePoll false none wT).2.2.1, (C09.cxR1.writeablePoll false none wT).2.2.2.1, .ready) := by
+    rw [← h]
+  obtain ⟨h1, h2, h3, h4, -⟩ := C09.cx_setup
+  exact ⟨h4, C09.writeable_ready_sets_flag_partial h1 h2 h3 (fun h => by cases h) hw⟩
+
+end C09
 
 end Fcgi.NonVacuity
